@@ -275,7 +275,21 @@ def run(ck):
         s = max(numpy.abs(b).max(), 1e-300)
         return float(numpy.abs(a - b).max() / s)
 
+    # a component list that keeps growing inside a library call must end as a reported failure, not as a killed check: the address space
+    # of this process is capped while the histories run (restored afterwards; the Lean drivers run later, uncapped)
+    import resource
+    _soft, _hard = resource.getrlimit(resource.RLIMIT_AS)
+    try:
+        resource.setrlimit(resource.RLIMIT_AS, (12 * 2 ** 30, _hard))
+    except Exception:
+        pass
+
+    class Runaway(Exception):
+        pass
+    runaway = False
     for ip in range(nprog):
+        if runaway:
+            break
         tag, cls = classes[ip % 2]
         kinds = [k for k in tabs[tag]["kinds"] if k in KINDS]
         lines.append("reset %s" % tag)
@@ -308,6 +322,8 @@ def run(ck):
             return "%d %d %s %s %d" % (i, tabs[tag]["kinds"].index(lf["kind"]), frac(lf["T"]), frac(lf["cut"]), 1 if lf["kind"] == "Value-defined" else 0)
 
         def snapshot(o):
+            if len(o.params) > 50000:
+                raise Runaway(len(o.params))
             return dict(data=numpy.array(o.data).copy(), lamb=float(o.lamb), ids=[p.get("qvid") for p in o.params],
                         T=float(getattr(o, "temperature", -1.0)), cut=float(getattr(o, "cutoff_time", 0.0)))
 
@@ -398,8 +414,24 @@ def run(ck):
                         r = store[a].copy()
                     store.append(r)
                     rec.update(status="ok", idx=len(store) - 1, same_as=pre)
+            except (Runaway, MemoryError) as e:
+                runaway = True
             except Exception as e:
                 rec.update(status=short(e))
+            if not runaway and "idx" in rec and rec["idx"] < len(store):
+                try:
+                    runaway = len(store[rec["idx"]].params) > 50000
+                except Exception:
+                    pass
+            if runaway:
+                nbig = max([len(getattr(o_, "params", [])) for o_ in store] + [0])
+                del lines[nl:]
+                store[:] = []
+                ck.fail("components:runaway", "the component list of a function grew without bound (%d entries) in a history of sums: sums no longer carry the "
+                        "components of their operands" % nbig, {"class": tag, "program": prog_desc + ["%s%s" % (rec["op"], tuple(rec.get(k) for k in ("a", "b") if k in rec))]})
+                lines.append("noop")
+                plans.append(None)
+                break
             if len(lines) == nl:
                 # the statement failed before it was put on the wire (construction of a single component raised)
                 lines.append("noop")
@@ -417,6 +449,10 @@ def run(ck):
                 types=len(types_used), rebuilt_composite=rebuilt_composite,
                 sample={"class": tag, "program": prog_desc} if ip < 2 else None)
 
+    try:
+        resource.setrlimit(resource.RLIMIT_AS, (_soft, _hard))
+    except Exception:
+        pass
     # ---- functions DERIVED from another one at an explicitly requested temperature take part in sums like any other ----------
     for idv in range(ck.n(6, 30)):
         kind = [k for k in KINDS if k != "OverdampedBrownian-HighTemperature"][idv % 5]
@@ -630,9 +666,10 @@ def run(ck):
                             {"class": tag, "kinds": ks, "units": units, "read_in": u}, got, [want, want_in])
 
     # ---- analytic clauses ---------------------------------------------------------------------------
-    tl = TimeAxis(0.0, ck.n(3000, 6000), 1.0)
+    tl_all = [TimeAxis(0.0, ck.n(3000, 6000), 1.0), TimeAxis(0.0, ck.n(6000, 12000), 0.5), TimeAxis(0.0, ck.n(1500, 3000), 2.0)]
     for kind in ("OverdampedBrownian-HighTemperature", "OverdampedBrownian"):
-        for _ in range(ck.n(4, 30)):
+        for im_ in range(ck.n(4, 30)):
+            tl = tl_all[im_ % 3]             # the recovered value is an integral over time: axes of different step
             tau = rng.choice([30.0, 60.0, 100.0, 150.0])
             lam = rng.choice([5.0, 20.0, 80.0, 300.0])
             T = rng.choice([77.0, 150.0, 300.0])
@@ -647,7 +684,7 @@ def run(ck):
             except Exception as ex:
                 ck.fail("raises:measure:%s" % kind, "raised %r" % (ex,), {"params": p})
                 continue
-            ck.case(("measure", kind, tau, lam, T), cls="cf")
+            ck.case(("measure", kind, tau, lam, T, tl.step), cls="cf")
             ck.resid("measured vs declared reorganisation energy", abs(meas - decl) / decl)
             if abs(meas - decl) > 1e-3 * decl or abs(decl - lam) > 1e-12 * lam or not cons:
                 ck.fail("measure:%s" % kind, "reorganisation energy recovered from the data differs from the declared one",
